@@ -28,6 +28,12 @@ def plan(tier):
             qs.append(Q('arb:%s:%s' % (nm, 'dec' if d else 'enc'), 'c01.c',
                         'forall %d-round schedules (arbitrary round tweakeys), forall blocks: real %s == %d specification rounds' % (nr, 'decrypt' if d else 'encrypt', nr),
                         defs={'CB': cb, 'OB_ARB': 1, 'NR': nr, 'DIR': d}, timeout=900))
+    for cb, blk in ((8, 16), (4, 8)):
+        nm = 'skinny%d' % (128 if cb == 8 else 64)
+        for (z1, z2) in (((1, 2), (1, 3), (2, 3), (3, 1)) if tier == 'quick' else [(a, b) for a in (1, 2, 3) for b in (1, 2, 3)]):
+            qs.append(Q('sched-after:%s:%d-then-%d' % (nm, z1 * blk * 8, z2 * blk * 8), 'c01.c',
+                        'forall K1 (%d bytes), K2 (%d bytes): after %s_set_key(K1) on another object, %s_set_key(K2) gives exactly the specification schedule of K2 (no state carried between calls)' % (z1 * blk, z2 * blk, nm, nm),
+                        defs={'CB': cb, 'OB_SCHED2': 1, 'KEYLEN1': z1 * blk, 'KEYLEN': z2 * blk}, timeout=900))
     # the other word-size code path of the S-boxes and rounds (the full configuration matrix is C12; these cost a second)
     import copy
     for q in list(qs):
